@@ -8,14 +8,33 @@
   raw   : arbitrary bytes, truncations and byte flips of valid encodings -> real parser vs model only (errors included);
           these inputs are outside the property's quantifier and are never compared with `expect`
 
+  info  : EXPRESSIONS WHERE THEY OCCUR (seventh wave).  Forests of 1..4 units (+ 0..2 type units) of DIFFERENT configurations
+          (format x address size x version 2..5, one byte order per file) sharing abbreviation tables, whose entries carry
+          expression-class attributes (the standard's list, asked from the Lean Spec) in DW_FORM_exprloc / block / block1 /
+          block2 / block4 (directly or through DW_FORM_indirect) next to decoys (blocks that are no expressions, expression
+          names in constant forms, DWARF >= 4 blocks) — sections assembled by the Lean Spec encoders of C04, the real
+          DWARFInfo built from section descriptors, walked with `iter_CUs()/iter_TUs()` x `iter_DIEs()` x `die.attributes`,
+          each selected attribute parsed with (a) a fresh `DWARFExprParser(cu.structs)` and (b) the parser of the library's
+          own per-structs cache (`describe_DWARF_expr`'s `_DWARF_EXPR_DUMPER_CACHE`, which persists over all cases of the
+          run: earlier files' units of other configurations are the disturbance).  `expect` = Props/C12
+          `debug_info_exprs_exact` / `debug_types_exprs_exact` (per unit, per entry, per selected attribute: offset and
+          operations annotated with THAT unit's configuration), `model` = `Model.C12.sectionExprs` over C04's model, started
+          from a parser cache pre-loaded with random other configurations.
+  trunc : every proper prefix of generated well-formed expressions (every byte, not a sample): `expect` = the error class
+          Props/C12 `truncated_*` prescribes, model and real parser compared with it and with each other.
+
 For `table` and `seq` the bytes come from the Lean Spec assembler (`Spec.encodeOps`), `expect` is `Spec.annotate`
 (opcode, name, operand values, byte offsets, recursively) and `model` is `Model.parseExpr` run with the regenerated
 dispatch and name tables.
 """
+import io
 import json
 from common import run_impl, hx, rnd_uint, rnd_bytes, BOUNDARY
 
-RULE = ('optable: for each of the 8 (byte order, format, address size) configurations, every row of the Spec operation '
+RULE = ('trunc: every proper prefix (every byte) of [const1u, row-variant, nop] for the rows of the Spec operation table and of '
+        'random nested sequences; info: forests of 1-4 units + 0-2 type units of mixed (format, address size, version) whose '
+        'entries carry expression-class attributes in exprloc / block forms next to decoys, parser caches pre-loaded with '
+        'random other configurations; optable: for each of the 8 (byte order, format, address size) configurations, every row of the Spec operation '
         'table x per-kind boundary pools (0, 1, sign and width boundaries, max; LEB128 minimal and padded; blobs of length '
         '0/1/127/128/255/300; WASM kinds 0..3; nested bodies of depth 0..3), each alone and wrapped between two operations; '
         'seq: random operation sequences from the same pools plus uniform values; raw: random bytes, every truncation point '
@@ -300,6 +319,34 @@ def run_table(ctx):
         check_ast(ctx, 'optable', cfg, reqs)
 
 
+def run_unit_rows(ctx):
+    """the rows whose operand widths depend on the unit (address; the DW_FORM_ref_addr-like reference of call_ref /
+    implicit_pointer: address-sized in DWARF 2, format-sized later) for ALL 32 configurations, alone, wrapped, and cut at
+    every byte"""
+    rng = ctx.rng('unitrows')
+    nop = {'o': 0x96, 'a': []}
+    for le in (True, False):
+        for fmt in (32, 64):
+            for asz in (4, 8):
+                for ver in (2, 3, 4, 5):
+                    cfg = cfg_list(le, fmt, asz, ver)
+                    sig = get_sig(ctx, cfg)
+                    reqs, treqs = [], []
+                    for op, name, kinds in sig:
+                        if op not in (0x03, 0x9a, 0xa0, 0xf2):
+                            continue
+                        ctx.out.count('unitrows:%s ver%s asz=%d fmt=%d -> %s' % (name, '=2' if ver == 2 else '>=3', asz, fmt, kinds[0]))
+                        pools = [arg_pool(k, rng, small=(k == 'sleb')) for k in kinds]
+                        variants = [{'o': op, 'a': [a]} for a in pools[0]] if len(pools) == 1 else \
+                            [{'o': op, 'a': [a, b]} for a in pools[0] for b in pools[1]]
+                        for v in variants:
+                            reqs.append([v])
+                            reqs.append([{'o': 0x23, 'a': [{'t': 'uleb', 'n': 2, 'v': 300}]}, v, {'o': 0x0a, 'a': [{'t': 'u', 'v': 0x96a3}]}, nop])
+                        treqs.append([nop, rng.choice(variants), nop])
+                    check_ast(ctx, 'optable', cfg, reqs)
+                    check_trunc(ctx, cfg, treqs)
+
+
 def run_seq(ctx):
     rng = ctx.rng('seq')
     n = ctx.budget(700, 12000)
@@ -376,17 +423,415 @@ def run_raw(ctx):
             ctx.out.violation('correspondence', 'raw', case, got=impl, model=m['model'])
 
 
+# ----------------------------------------------------------------------------- expressions where they occur (C12 x C04)
+EXPR_BLOCK_FORMS = {0x18: 'DW_FORM_exprloc', 0x09: 'DW_FORM_block', 0x0a: 'DW_FORM_block1', 0x03: 'DW_FORM_block2',
+                    0x04: 'DW_FORM_block4'}
+BLOCK_CAP = {0x0a: 255, 0x03: 65535, 0x04: 1 << 20, 0x18: 1 << 20, 0x09: 1 << 20}
+DECOY_AT = [0x1c, 0x03, 0x2300, 0x3fff, 0x58, 0x1234567]      # const_value, name, vendor / unknown numbers, call_file
+LEAF_TAGS = [0x34, 0x05, 0x0d, 0x48, 0x4109, 0x21, 0x410a, 0x0b]
+_exprclass = {}
+
+
+def expr_class(ctx):
+    if not _exprclass:
+        r = ctx.driver.ask({'p': 'C12', 'k': 'exprclass'})
+        if 'fatal' in r:
+            raise RuntimeError('driver: %s' % r['fatal'])
+        _exprclass['at'] = [n for n, _ in r['at']]
+        _exprclass['names'] = set(s for _, s in r['at'])
+        _exprclass['block_forms'] = set(r['block_forms'])
+    return _exprclass
+
+
+def is_expr_attr(ec, name, form, ver):
+    """the client's selection, the standard's rule (Spec.C12.isExprAttr): DW_FORM_exprloc always; before DWARF 4 a
+    block form on an attribute of class exprloc"""
+    if form == 'DW_FORM_exprloc':
+        return True
+    return ver < 4 and form in ec['block_forms'] and isinstance(name, str) and name in ec['names']
+
+
+def mk_dwarfinfo(le, dasz, info, abbrev, types):
+    from elftools.dwarf.dwarfinfo import DWARFInfo, DwarfConfig, DebugSectionDescriptor
+
+    def d(name, b):
+        if b is None:
+            return None
+        return DebugSectionDescriptor(stream=io.BytesIO(b), name=name, global_offset=0, size=len(b), address=0)
+    return DWARFInfo(
+        config=DwarfConfig(little_endian=le, machine_arch='x64', default_address_size=dasz),
+        debug_info_sec=d('.debug_info', info), debug_aranges_sec=None, debug_abbrev_sec=d('.debug_abbrev', abbrev),
+        debug_frame_sec=None, eh_frame_sec=None, debug_str_sec=None, debug_loc_sec=None,
+        debug_ranges_sec=None, debug_line_sec=None, debug_pubtypes_sec=None, debug_pubnames_sec=None,
+        debug_addr_sec=None, debug_str_offsets_sec=None, debug_line_str_sec=None, debug_loclists_sec=None,
+        debug_rnglists_sec=None, debug_sup_sec=None, gnu_debugaltlink_sec=None,
+        debug_types_sec=d('.debug_types', types))
+
+
+def fresh_parser(cu):
+    from elftools.dwarf.dwarf_expr import DWARFExprParser
+    return DWARFExprParser(cu.structs)
+
+
+def cached_parser(cu):
+    """the parser the library itself caches per structs object: `describe_DWARF_expr` creates / reuses the entry of
+    `_DWARF_EXPR_DUMPER_CACHE` for `cu.structs` (the empty expression describes to '()'), whose `expr_parser` is the
+    `DWARFExprParser` every later description of an expression of that unit is parsed with"""
+    from elftools.dwarf import descriptions as D
+    used = []
+    orig = D.ExprDumper.dump_expr
+
+    def recording(self, expr, cu_offset=None):
+        used.append(self)
+        return orig(self, expr, cu_offset)
+    D.ExprDumper.dump_expr = recording
+    try:
+        D.describe_DWARF_expr([], cu.structs, cu.cu_offset)
+    finally:
+        D.ExprDumper.dump_expr = orig
+    if len(used) != 1:
+        raise RuntimeError('describe_DWARF_expr used %d dumpers' % len(used))
+    return used[0].expr_parser        # the dumper the library's cache handed out for this structs object
+
+
+def impl_walk(ec, le, dasz, info, abbrev, types, parser_of):
+    """{'info': ..., 'types': ...}: per unit, per entry, [offset, ops] of the selected attributes"""
+    di = mk_dwarfinfo(le, dasz, info, abbrev, types)
+    out = {}
+    for key, it in (('info', di.iter_CUs), ('types', di.iter_TUs)):
+        def walk():
+            units = []
+            for cu in it():
+                ver = cu['version']
+                dies = list(cu.iter_DIEs())
+                parser = parser_of(cu)
+                rows = []
+                for die in dies:
+                    row = []
+                    for attr in die.attributes.values():
+                        if is_expr_attr(ec, attr.name, attr.form, ver):
+                            row.append([attr.offset, canon_ops(parser.parse_expr(attr.value))])
+                    rows.append(row)
+                units.append(rows)
+            return units
+        out[key] = run_impl(walk)
+    return out
+
+
+def gen_specs(rng, ec):
+    """attribute specifications of one declaration: distinct names; (name, form, role)"""
+    n = rng.choice([1, 1, 2, 2, 3, 4])
+    specs, used = [], set()
+    for _ in range(n):
+        r = rng.random()
+        if r < 0.5:
+            name = rng.choice(ec['at'])
+            form = rng.choice([0x18, 0x18, 0x0a, 0x0a, 0x03, 0x04, 0x09, 0x16])
+        elif r < 0.7:
+            name = rng.choice(DECOY_AT)
+            form = rng.choice([0x18, 0x0a, 0x03, 0x09, 0x16])
+        elif r < 0.8:
+            name = rng.choice(ec['at'])            # an expression-class NAME in a constant form: not an expression
+            form = rng.choice([0x0b, 0x0f])
+        else:
+            name, form = rng.choice([(0x03, 0x08), (0x3e, 0x0b), (0x3a, 0x0f), (0x3b, 0x0b)])
+        if name in used:
+            continue
+        used.add(name)
+        specs.append({'name': name, 'form': form, 'nl': uleb_minlen(name) + rng.choice([0, 0, 1]), 'fl': rng.choice([1, 1, 2])})
+    return specs
+
+
+def gen_attr(rng, ec, spec, cfg, sig, exprs):
+    """one attribute value; expression payloads are recorded in `exprs` as (cfg, ops) and filled in later"""
+    form = spec['form']
+    ind = None
+    if form == 0x16:
+        form = rng.choice([0x18, 0x0a, 0x09, 0x03])
+        ind = [rng.choice([1, 1, 2])] if rng.random() < 0.8 else [1, rng.choice([1, 2])]
+    a = {'form': form}
+    if ind:
+        a['ind'] = ind
+    ver = cfg[3]
+    if form in EXPR_BLOCK_FORMS:
+        selected = form == 0x18 or (ver < 4 and spec['name'] in ec['at'])
+        if selected or rng.random() < 0.3:
+            r = rng.random()
+            count = 0 if r < 0.05 else rng.randrange(1, 4) if r < 0.7 else rng.randrange(1, 9)
+            ops = rnd_ops(rng, sig, count, rng.randrange(0, 3), blob_cap=24)
+            if rng.random() < 0.5:
+                # operands whose width depends on the unit: address, references (kinds from the Spec's signature)
+                opc = rng.choice([0x03, 0x9a, 0xa0, 0xf2])
+                kinds = next(r[2] for r in sig if r[0] == opc)
+                ops.insert(rng.randrange(0, len(ops) + 1), {'o': opc, 'a': [rnd_arg(k, rng) for k in kinds]})
+            fix_entry_lengths(ops, rng)
+            a['_expr'] = len(exprs)
+            exprs.append((cfg, ops))
+        else:
+            a['_bytes'] = rnd_bytes(rng, rng.choice([0, 1, 2, 5, 9]))
+    elif form == 0x08:
+        a['op'] = ['str', hx(bytes(rng.randrange(1, 256) for _ in range(rng.randrange(0, 6))))]
+    elif form == 0x0b:
+        a['op'] = ['nat', rng.randrange(256)]
+    elif form == 0x0f:
+        v = rnd_uint(rng, rng.choice([7, 14, 32]))
+        a['op'] = ['uleb', uleb_minlen(v) + rng.choice([0, 0, 1]), v]
+    else:
+        raise KeyError(form)
+    return a
+
+
+def gen_node(rng, ec, decls, code, cfg, sig, exprs, depth):
+    d = next(x for x in decls if x['code'] == code)
+    node = {'code': code, 'attrs': [gen_attr(rng, ec, s, cfg, sig, exprs) for s in d['specs']], 'kids': []}
+    if d['children'] and depth < 2:
+        for _ in range(rng.choice([0, 1, 2])):
+            node['kids'].append(gen_node(rng, ec, decls, rng.choice([x['code'] for x in decls if x['code'] != 1]), cfg, sig, exprs, depth + 1))
+    if rng.random() < 0.1:
+        node['nl'] = 2
+    return node
+
+
+def gen_info_case(ctx, rng, ec, sigs):
+    le = rng.random() < 0.5
+    tables = []
+    for _t in range(rng.choice([1, 1, 2])):
+        decls = [{'code': 1, 'tag': 0x11, 'children': True, 'specs': gen_specs(rng, ec) if rng.random() < 0.3 else []}]
+        for code in range(2, 2 + rng.randrange(2, 6)):
+            tag = rng.choice(LEAF_TAGS)
+            decls.append({'code': code, 'tag': tag, 'tl': uleb_minlen(tag), 'children': rng.random() < 0.3, 'specs': gen_specs(rng, ec)})
+        tables.append({'decls': decls, 'gap': hx(rnd_bytes(rng, rng.choice([0, 0, 3]))), 'end_len': rng.choice([1, 1, 2])})
+    exprs = []
+    units, tus = [], []
+    shapes = [(f, a) for f in (32, 64) for a in (4, 8)]
+    rng.shuffle(shapes)
+    for which, lst, n in (('info', units, rng.choice([1, 2, 2, 3, 4])), ('types', tus, rng.choice([0, 0, 1, 2]))):
+        for k in range(n):
+            fmt, asz = shapes[(k + len(units)) % 4] if rng.random() < 0.8 else rng.choice(shapes)
+            ver = rng.choice([2, 3, 4, 5]) if which == 'info' else rng.choice([4, 4, 3, 2, 5])
+            cfg = cfg_list(le, fmt, asz, ver)
+            key = tuple(cfg)
+            if key not in sigs:
+                sigs[key] = get_sig(ctx, cfg)
+            ti = rng.randrange(len(tables))
+            decls = tables[ti]['decls']
+            top = {'code': 1, 'attrs': [gen_attr(rng, ec, s, cfg, sigs[key], exprs) for s in decls[0]['specs']], 'kids': []}
+            for _ in range(rng.choice([1, 2, 3, 5])):
+                top['kids'].append(gen_node(rng, ec, decls, rng.choice([x['code'] for x in decls[1:]]), cfg, sigs[key], exprs, 1))
+            u = {'fmt64': fmt == 64, 'version': ver, 'asz': asz, 'table': ti, 'tree': top, 'id8': rnd_uint(rng, 64), 'type_off': 0}
+            if which == 'info' and ver == 5:
+                u['utype'] = rng.choice([1, 1, 1, 2, 3, 4, 5, 6])
+            lst.append(u)
+            ctx.out.count('info:unit fmt=%d asz=%d ver=%d' % (fmt, asz, ver))
+    return {'le': le, 'dasz': rng.choice([4, 8]), 'abbrevs': tables, 'units': units, 'tus': tus, '_exprs': exprs}
+
+
+def fill_exprs(case, enc):
+    """replace the expression / garbage placeholders by operands; `enc[i]` = bytes of expression i.  An expression too
+    long for its form's length field is replaced by the empty expression."""
+    used = []
+
+    def fill(node):
+        for a in node['attrs']:
+            if '_expr' in a or '_bytes' in a:
+                if '_expr' in a:
+                    i = a.pop('_expr')
+                    b = enc[i]
+                    if len(b) > BLOCK_CAP[a['form']]:
+                        b = b''
+                        used.append((case['_exprs'][i][0], []))
+                    else:
+                        used.append(case['_exprs'][i])
+                else:
+                    b = a.pop('_bytes')
+                if a['form'] in (0x18, 0x09):
+                    a['op'] = ['blocku', uleb_minlen(len(b)) + (1 if len(b) % 7 == 3 else 0), hx(b)]
+                else:
+                    a['op'] = ['block', hx(b)]
+        for k in node['kids']:
+            fill(k)
+    for u in case['units'] + case['tus']:
+        fill(u['tree'])
+    del case['_exprs']
+    case['exprs'] = [{'cfg': c, 'ops': o} for c, o in used]
+
+
+def info_request(case, pc):
+    rq = {'p': 'C12', 'k': 'info', 'pc': pc}
+    rq.update(case)
+    return rq
+
+
+def preload_cache(pc):
+    """disturbance, replayable: before the observed walk, let the library's per-structs cache serve units of the
+    configurations `pc` (the same list the model's cache is pre-loaded with)"""
+    from elftools.dwarf.structs import DWARFStructs
+    from elftools.dwarf import descriptions as D
+    for le, fmt, asz, ver in pc:
+        D.describe_DWARF_expr([0x96], DWARFStructs(little_endian=le, dwarf_format=fmt, address_size=asz, dwarf_version=ver), 0)
+
+
+def judge_info(ctx, stream, case, pc, r, ec):
+    """run the real library on the sections of reply `r`; returns the list of violations (kind, parser, impl)"""
+    info, abbrev = bytes.fromhex(r['info']), bytes.fromhex(r['abbrev'])
+    types = bytes.fromhex(r['types']) if case['tus'] else None
+    bad = []
+    preload_cache(pc)
+    for label, parser_of in (('cached', cached_parser), ('fresh', fresh_parser)):
+        impl = impl_walk(ec, case['le'], case['dasz'], info, abbrev, types, parser_of)
+        if r['wf'] and impl != r['expect']:
+            bad.append(('property', label, impl))
+        elif impl != r['model']:
+            bad.append(('correspondence', label, impl))
+    return bad
+
+
+def run_info(ctx):
+    rng = ctx.rng('info')
+    ec = expr_class(ctx)
+    n = ctx.budget(400, 8000)
+    sigs = {}
+    all_cfgs = [cfg_list(le, fmt, asz, ver) for le in (True, False) for fmt in (32, 64) for asz in (4, 8) for ver in (2, 3, 4, 5)]
+    chunk = 20
+    done = 0
+    while done < n and ctx.time_left() > 12:
+        cases = [gen_info_case(ctx, rng, ec, sigs) for _ in range(min(chunk, n - done))]
+        done += len(cases)
+        # encode every expression with the Spec assembler
+        asks = [{'p': 'C12', 'k': 'ast', 'cfg': cfg, 'ops': ops} for c in cases for cfg, ops in c['_exprs']]
+        reps = ask_sized(ctx, asks)
+        k = 0
+        for c in cases:
+            m = len(c['_exprs'])
+            for rep in reps[k:k + m]:
+                if 'fatal' in rep:
+                    raise RuntimeError('driver: %s' % rep['fatal'])
+            fill_exprs(c, [bytes.fromhex(rep['bytes']) for rep in reps[k:k + m]])
+            k += m
+        pcs = [rng.sample(all_cfgs, rng.choice([0, 1, 3, 8])) for _ in cases]
+        replies = ask_sized(ctx, [info_request(c, pc) for c, pc in zip(cases, pcs)])
+        for c, pc, r in zip(cases, pcs, replies):
+            if 'fatal' in r:
+                raise RuntimeError('driver: %s on %s' % (r['fatal'], json.dumps(c)[:300]))
+            ctx.out.count('info:selected-attrs', r['selected'])
+            ctx.out.count('info:units', len(c['units']))
+            ctx.out.count('info:type-units', len(c['tus']))
+            if not r['wf']:
+                ctx.out.count('info:not-wf' if r['wf_forest'] else 'info:not-wf-forest')
+            ctx.out.case({'info': r['info'], 'abbrev': r['abbrev'], 'types': r['types']}, nontrivial=r['selected'] > 0)
+            for kind, label, impl in judge_info(ctx, 'info', c, pc, r, ec):
+                ctx.out.violation(kind, 'info', {'req': c, 'pc': pc, 'parser': label}, expect=r['expect'] if r['wf'] else None,
+                                  got=impl, model=r['model'])
+                break
+
+
+# ----------------------------------------------------------------------------- truncated expressions
+def check_trunc(ctx, cfg, reqs):
+    """reqs: op lists; every proper prefix of the encoding against Props/C12 `truncated_expr` and the model"""
+    out = ctx.out
+    replies = ask_sized(ctx, [{'p': 'C12', 'k': 'trunc', 'cfg': cfg, 'ops': ops} for ops in reqs], cap=8000)
+    for ops, r in zip(reqs, replies):
+        if 'fatal' in r:
+            raise RuntimeError('driver: %s on %s' % (r['fatal'], json.dumps(ops)[:300]))
+        if not r['wf']:
+            out.count('trunc:not-wf')
+            continue
+        data = bytes.fromhex(r['bytes'])
+        for k, cut in enumerate(r['cuts']):
+            impl = run_impl(lambda: impl_parse(cfg, data[:k]))
+            out.case({'cfg': cfg, 'bytes': r['bytes'], 'k': k})
+            out.count('trunc:cut-between-ops' if 'ok' in cut['expect'] else 'trunc:cut-inside-op')
+            case = {'cfg': cfg, 'ops': ops, 'k': k}
+            if impl != cut['expect']:
+                out.violation('property', 'trunc', case, expect=cut['expect'], got=impl, model=cut['model'])
+                break
+            if impl != cut['model']:
+                out.violation('correspondence', 'trunc', case, got=impl, model=cut['model'])
+                break
+
+
+def small_variant(rng, kinds, op):
+    """one operand choice per kind that keeps the encoding short (every byte of it is a cut point)"""
+    if kinds == ['expr']:
+        body, n = rng.choice(body_pool(rng)[:7])
+        return {'o': op, 'n': n, 'body': body}
+    args = []
+    for k in kinds:
+        pool = [a for a in arg_pool(k, rng) if len(a.get('b', '')) <= 16]
+        args.append(rng.choice(pool))
+    return {'o': op, 'a': args}
+
+
+def run_trunc(ctx):
+    rng = ctx.rng('trunc')
+    nop = {'o': 0x96, 'a': []}
+    # every row of the operation table, cut at every byte, behind a complete operation
+    for i, (le, fmt, asz) in enumerate(CFGS):
+        if ctx.tier == 'quick' and i % 2 != ctx.seed % 2:
+            continue
+        cfg = cfg_list(le, fmt, asz, 2 + ((i + 1) % 4))
+        sig = get_sig(ctx, cfg)
+        reqs = []
+        for op, name, kinds in sig:
+            if not kinds and rng.random() < 0.8:
+                continue
+            ctx.out.count('trunc:row:%s' % ('+'.join(kinds) if kinds else 'noargs'))
+            reqs.append([{'o': 0x08, 'a': [{'t': 'u', 'v': 0x96}]}, small_variant(rng, kinds, op), nop])
+        check_trunc(ctx, cfg, reqs)
+    # random sequences with nesting
+    n = ctx.budget(300, 6000)
+    by_cfg, sigs = {}, {}
+    for _ in range(n):
+        le, fmt, asz = rng.choice(CFGS)
+        cfg = cfg_list(le, fmt, asz, rng.choice([2, 3, 4, 5]))
+        key = tuple(cfg)
+        if key not in sigs:
+            sigs[key] = get_sig(ctx, cfg)
+        ops = rnd_ops(rng, sigs[key], rng.randrange(1, 6), rng.randrange(0, 4), blob_cap=10)
+        if rng.random() < 0.4:
+            # a chain of nested blocks: cuts inside the length field and the body at every depth
+            inner = rnd_ops(rng, sigs[key], rng.randrange(0, 3), 0, blob_cap=6)
+            for _k in range(rng.randrange(1, 4)):
+                inner = [{'o': rng.choice([0xa3, 0xf3]), 'n': None, 'body': inner}] + rnd_ops(rng, sigs[key], rng.randrange(0, 2), 0, blob_cap=6)
+            ops = ops[:1] + inner + ops[1:3]
+        fix_entry_lengths(ops, rng)
+        if sum(op_len_estimate(o) for o in ops) > 120:
+            ctx.out.count('trunc:skipped-long')
+            continue
+        ctx.out.count('trunc:seq depth=%d' % depth_of(ops))
+        by_cfg.setdefault(key, []).append(ops)
+    for key, reqs in by_cfg.items():
+        check_trunc(ctx, list(key), reqs)
+
+
 def run(ctx):
     run_table(ctx)
+    run_unit_rows(ctx)
     run_seq(ctx)
     run_raw(ctx)
+    run_trunc(ctx)
+    run_info(ctx)
 
 
 def replay(ctx, payload):
     v = payload['violation']
     case = v['case']
+    if v['stream'] == 'info':
+        ec = expr_class(ctx)
+        r = ctx.driver.ask(info_request(case['req'], case['pc']))
+        bad = judge_info(ctx, 'info', case['req'], case['pc'], r, ec)
+        return {'stream': 'info', 'wf': r.get('wf'), 'expect': r.get('expect'), 'model': r.get('model'),
+                'impl': [[k, l, i] for k, l, i in bad], 'fails': bool(bad)}
     cfg = case['cfg']
     res = {'stream': v['stream'], 'case': case}
+    if v['stream'] == 'trunc':
+        r = ctx.driver.ask({'p': 'C12', 'k': 'trunc', 'cfg': cfg, 'ops': case['ops']})
+        data = bytes.fromhex(r['bytes'])
+        cut = r['cuts'][case['k']]
+        impl = run_impl(lambda: impl_parse(cfg, data[:case['k']]))
+        res.update(bytes=r['bytes'][:2 * case['k']], wf=r['wf'], impl=impl, expect=cut['expect'], model=cut['model'],
+                   fails=(r['wf'] and impl != cut['expect']) or impl != cut['model'])
+        return res
     if v['stream'] == 'raw':
         data = bytes.fromhex(case['hex'])
         impl = run_impl(lambda: impl_parse(cfg, data))
